@@ -87,11 +87,14 @@ def _save_and_reraise(ctx):
     cls = world.cls('excutils', 'save_and_reraise_exception')
     for m in ('__exit__', 'force_reraise', 'capture', '__enter__'):
         rep.analysed('excutils.save_and_reraise_exception.' + m)
-    for reraise in (True, False):
+    for initial, reraise in ((True, True), (False, False), (False, True),
+                             (True, False)):
         for body in ('completed', 'Exception', 'BaseException'):
             for tb_attached in (True, False):
-                label = 'reraise=%s body=%s traceback %s' % (
-                    reraise, body, 'already attached' if tb_attached
+                label = 'reraise=%s%s body=%s traceback %s' % (
+                    reraise, '' if initial == reraise else
+                    ' (constructed with %s, switched in the body)' % initial,
+                    body, 'already attached' if tb_attached
                     else 'differs')
                 holder = {}
 
@@ -102,12 +105,15 @@ def _save_and_reraise(ctx):
                     lg = logger_obj()
                     _fake_frame(interp, orig)
                     try:
-                        obj = interp.call(cls, [], {'reraise': K(reraise),
+                        obj = interp.call(cls, [], {'reraise': K(initial),
                                                     'logger': lg})
                         entered = interp.call(
                             interp.get_attr(obj, '__enter__'), [])
                     finally:
                         interp.frames.pop()
+                    if initial != reraise:
+                        # the handler body flips the public flag
+                        interp.set_attr(obj, 'reraise', K(reraise))
                     if entered is not obj:
                         interp.inexact('__enter__ does not return the '
                                        'context')
